@@ -11,6 +11,7 @@ import (
 	"regexp"
 	"strings"
 	"sync"
+	"syscall"
 	"time"
 
 	"github.com/cloudwego/hertz/pkg/common/hlog"
@@ -308,6 +309,8 @@ type SeqConn struct {
 	// StallResp/StallAfter: while response StallResp is being delivered the peer goes
 	// silent once after StallAfter bytes of it (one read times out), then carries on
 	StallResp, StallAfter int
+	StallReset            bool // instead of going silent the peer resets the connection there
+	wasReset              bool
 	stallArmed            bool
 	delivered             int // bytes of the current response delivered so far
 }
@@ -343,6 +346,9 @@ func (c *SeqConn) Read(p []byte) (int, error) {
 		if c.DieAfter > 0 && c.idx >= c.DieAfter {
 			return 0, io.EOF
 		}
+		if c.wasReset {
+			return 0, syscall.ECONNRESET
+		}
 		if c.idx >= len(c.resps) {
 			if c.CloseAfter {
 				return 0, io.EOF
@@ -370,6 +376,10 @@ func (c *SeqConn) Read(p []byte) (int, error) {
 		if c.stallArmed && c.idx == c.StallResp {
 			if c.delivered >= c.StallAfter {
 				c.stallArmed = false
+				if c.StallReset {
+					c.wasReset = true
+					return 0, syscall.ECONNRESET
+				}
 				return 0, timeoutErr{}
 			}
 			if rem := c.StallAfter - c.delivered; len(p) > rem {
